@@ -3,7 +3,7 @@
    plus the port and interface-pinning rule, for ANY handlers; lif is the index of the
    interface the listener is bound to (0 = unbound), oob the interface index of the control
    message the request arrived with. *)
-From Verif Require Import Base BaseProofs Net Msg4 Server4 Server4Run Server4Proofs Server4Examples.
+From Verif Require Import Base BaseProofs Net Msg4 Chain ChainProofs Server4 Server4Run Server4Proofs Server4Examples.
 Open Scope N_scope.
 
 Theorem dest4_relay :
